@@ -132,7 +132,7 @@ VARIANTS["C09"] = [
         "    if snsApLfSy[0] == 0 and snsApLfSy[1] != 0:\n        return \"lf\"\n    elif snsApLfSy[0] != 0 and snsApLfSy[1] == 0:\n        return \"ap\"",
         "    if snsApLfSy[0] == 0 and snsApLfSy[1] != 0:\n        return \"ap\"\n    elif snsApLfSy[0] != 0 and snsApLfSy[1] == 0:\n        return \"lf\"")], ("D7",), ""),
     V("range-key-nidq", "fire", SG, [(
-        "            return md.get(\"niAiRangeMax\") / maxint", "            return md.get(\"imAiRangeMax\") / maxint")], ("D2",), ""),
+        "            return md.get(\"niAiRangeMax\") / maxint", "            return md.get(\"imAiRangeMax\") / maxint")], ("D2", "D8"), ""),
     V("nidq-ma-uses-mn-gain", "fire", SG, [("            / meta_data[\"niMAGain\"]\n", "            / meta_data[\"niMNGain\"]\n")], ("D8",), "needs a nidq stream with MA channels and niMAGain != niMNGain"),
     V("nidq-xa-without-int2volt", "fire", SG, [("            * int2volt,  # no gain for analog sync\n", "            ,  # no gain for analog sync\n")], ("D8",), ""),
     V("twin-positive-fields", "twin", SG, [(
